@@ -1,4 +1,4 @@
-From SV Require Import Model.Base Model.Hotspot Spec.C05hSpec Run.Common Run.RunHot.
+From SV Require Import Model.Base Model.F64 Model.Throttle Model.Hotspot Spec.C05hSpec Spec.C07Spec Spec.MultiSpec Run.Common Run.RunHot.
 Open Scope N_scope.
 
 (** C05 (hotspot part) on the implementation's trace: cases with a single concurrency rule
@@ -11,12 +11,8 @@ Definition spec_c05h (co : hcase * list Z) : bool :=
       match decode_h (hc_base c) (hc_ops c) rest with
       | None => false
       | Some obs =>
-          match map hc_rule (hw_ctls w) with
-          | [r] => match h_kind r with
-                   | HConc => if thresholds_pos r then ok_c05h r [] (hc_ops c) obs else true
-                   | _ => true
-                   end
-          | _ => true
-          end
+          let rs := map hc_rule (hw_ctls w) in
+          if forallb (fun r => match h_kind r with HConc => thresholds_pos r | _ => false end) rs
+          then ok_c05h_multi rs [] (hc_ops c) obs else true
       end
   end.
